@@ -37,9 +37,13 @@ def command(aslr_off: bool = True) -> list[str]:
     return cmd
 
 
-def launch(spec: dict, pyc_prefix: str, timeout: int = 300) -> dict:
+def launch(spec: dict, pyc_prefix: str, timeout: int = 300, freeze_cache: bool = True) -> dict:
     """Run one spec. Returns {'log': [...]} or {'error': ...} (harness-level failure)."""
     env = base_env(spec["env"]["hashseed"], pyc_prefix, spec["env"].get("envvars"))
+    if freeze_cache:
+        # after the warm-up the byte-code cache is read-only: a module missing from it is compiled by *every*
+        # process that needs it, so compile-vs-load (which shifts heap addresses) never depends on a race
+        env["PYTHONDONTWRITEBYTECODE"] = "1"
     try:
         p = subprocess.run(command(spec["env"].get("aslr_off", True)), input=json.dumps(spec).encode(), env=env, cwd="/",
                            capture_output=True, timeout=timeout)
@@ -59,7 +63,7 @@ def warm(pyc_prefix: str, repo: str) -> float:
 
     t = time.monotonic()
     spec = {"env": {"hashseed": 0, "repo": repo, "gc": "default", "skew": []}, "mode": "sequential", "ops": []}
-    r = launch(spec, pyc_prefix, timeout=600)
+    r = launch(spec, pyc_prefix, timeout=600, freeze_cache=False)
     if "error" in r:
         raise common.HarnessError("warm-up failed: " + r["error"])
     return time.monotonic() - t
